@@ -115,6 +115,7 @@ def configs(endians=("<", ">"), aligns=(False, True), compiled=(False, True), pt
 
 
 PTR_BYTES = {"uint8": 1, "uint16": 2, "uint32": 4, "uint64": 8}
+PTR_BYTES_EXOTIC = {"uint24": 3, "uint48": 6}    # arbitrary-width pointer types (C03 only: no reference layout involved)
 
 # Hand-written feature interactions (still generated text, not copied from the test-suite)
 CURATED = [
